@@ -9,6 +9,8 @@ C19 driver: replays a harness trace.
 import LndModel.Prelude.Lines
 import LndModel.C19.Model
 import LndModel.C19.Search
+import LndModel.C19.Bandwidth
+import LndModel.C19.Session
 
 open LndModel LndModel.Lines LndModel.C19
 
@@ -173,6 +175,8 @@ structure St where
   req : Req := default
   graph : Graph := []
   hintIds : List Nat := []
+  /-- `link` lines (via=route): state of the switch's link per own channel. -/
+  links : List (Nat × LinkInfo) := []
   find : String := ""
   edges : List UEdge := []
   routeOk : Bool := false
@@ -230,6 +234,9 @@ structure St where
   probMode : Int := 0
   samples : Nat := 0
   blindedCases : Nat := 0
+  linkDownCases : Nat := 0
+  sessGlue : Nat := 0
+  linkDownAvoided : Nat := 0
   blindedRoutes : Nat := 0
   blindedMax : Nat := 0
   reannounced : Nat := 0
@@ -361,7 +368,13 @@ def showHops (hs : List Hop) : String :=
 
 def endCase (s : St) : IO St := do
   let mut s := s
-  let r := s.req
+  -- via=route: the real bandwidth manager over the switch's links; the hints the search sees are
+  -- derived from the printed link states with the model of `availableChanBandwidth`
+  let r : Req := if s.via == "route" then
+      { s.req with bw := s.req.bw ++ managerHints (localChans s.graph s.hintIds s.req.self) s.links }
+    else s.req
+  if s.via == "route" && s.links.any (fun p => p.2.st != .up) then
+    s := { s with linkDownCases := s.linkDownCases + 1 }
   -- A blinded tail is a hint chain whose first edge carries the aggregate policy. The
   -- correspondence part (`g`) uses the max-HTLC flag the code put on that edge, the monitor
   -- (`gTrue`) the payer's parameters: a maximum is in force whenever one is given.
@@ -528,6 +541,8 @@ def endCase (s : St) : IO St := do
       ({ r with target := fin.to }, { rt with hops := unblindHops b.intro fin false rt.hops })
     | _, _ => (r, rt)
   if s.bl.isSome then s := { s with blindedRoutes := s.blindedRoutes + 1 }
+  if s.via == "route" && s.links.any (fun p => p.2.st != .up) then
+    s := { s with linkDownAvoided := s.linkDownAvoided + 1 }
   if !routeOK gTrue rM rtM then
     let vs0 := violations gTrue rM rtM (s.kind == "dbc") s.dropped
     -- the aggregate edge of a blinded path whose policy the code built without HasMaxHTLC
@@ -543,6 +558,11 @@ def endCase (s : St) : IO St := do
     for (cl, det) in vs do
       if cl == "fee+overflow" then s := { s with wrapSkipped := s.wrapSkipped + 1 }
       if cl == "max_htlc+blinded-hasmax-unset" then s := { s with blindedMax := s.blindedMax + 1 }
+      let det := if cl == "bandwidth" then
+          match rt.hops.head?.bind (fun h => s.links.find? (fun p => p.1 == h.chan)) with
+          | some (_, l) => det ++ s!" link_state={repr l.st} link_bandwidth={l.bandwidth}"
+          | none => det
+        else det
       s ← monitor s cl s!"{det} route total={rt.totalAmt}@{rt.totalTL} {showHops rt.hops}"
   -- (S) finality: the entries the search used when it relaxed the edges of the returned
   -- chain are the ones recomputed along the chain
@@ -611,7 +631,7 @@ def step (s : St) (line : String) : IO St := do
       bw := [] }
     let bad := (kvNat? rest "amt").isNone || (kvNat? rest "src").isNone || (kvNat? rest "tgt").isNone
     return { s with caseId := id, hdr := line, kind := (kv? rest "kind").getD "",
-                    via := (kv? rest "via").getD "", req := req, graph := [], hintIds := [],
+                    via := (kv? rest "via").getD "", req := req, graph := [], hintIds := [], links := [],
                     find := "",
                     edges := [], routeOk := false, rh := {}, hops := [], hopFees := [],
                     stored := [], probOk := true, relaxDup := false, usesHint := false,
@@ -651,6 +671,36 @@ def step (s : St) (line : String) : IO St := do
     | some c, some n, some ib, some ir =>
       return { s with dropped := s.dropped ++ [(c, n, ib, ir)], reannounced := s.reannounced + 1 }
     | _, _, _, _ => return { s with badParse := true }
+  | "sess" :: rest =>
+    -- (X) the glue of `RequestRoute`: restrictions / final expiry derived from the payment
+    match kvNat? rest "pay_cltv", kvNat? rest "pay_final", kvNat? rest "height", kvNat? rest "validate",
+          kvNat? rest "restr_cltv", kvInt? rest "final_expiry", kvNat? rest "restr_fee",
+          kvNat? rest "pay_fee", kvNat? rest "amt", kvNat? rest "pay_amt" with
+    | some pc, some pf, some h, some v, some rc, some fe, some rf, some pfee, some a, some pa =>
+      let pay : Payment := ⟨pc, pf⟩
+      let mut s := { s with sessGlue := s.sessGlue + 1 }
+      if sessCltvLimit pay != rc then
+        s ← mismatch s s!"RequestRoute glue: cltv limit model={sessCltvLimit pay} impl={rc}"
+      if sessFinalExpiry h pay != fe then
+        s ← mismatch s s!"RequestRoute glue: final expiry model={sessFinalExpiry h pay} impl={fe}"
+      if (validateCltvLimit pay) != (v != 0) then
+        s ← mismatch s s!"ValidateCLTVLimit: model={validateCltvLimit pay} impl={v}"
+      if rf != pfee || a != pa then
+        s ← mismatch s s!"RequestRoute glue: fee limit / amount not handed through ({rf} vs {pfee}, {a} vs {pa})"
+      if sessCltvLimit pay != s.req.cltvLimit || sessFinalDelta pay != s.req.finalDelta then
+        s ← mismatch s s!"RequestRoute glue: derived request differs from the case's request"
+      return s
+    | _, _, _, _, _, _, _, _, _, _ => return { s with badParse := true }
+  | ["link", id, st, v] =>
+    let st? : Option LinkSt := match st with
+      | "up" => some .up
+      | "ineligible" => some .ineligible
+      | "cannotadd" => some .cannotAdd
+      | "nolink" => some .noLink
+      | _ => none
+    match nat? id, st?, nat? v with
+    | some id, some st, some v => return { s with links := s.links ++ [(id, ⟨st, v⟩)] }
+    | _, _, _ => return { s with badParse := true }
   | ["bw", id, v] =>
     match nat? id, nat? v with
     | some id, some v =>
@@ -742,6 +792,9 @@ def main : IO Unit := do
   IO.println s!"STAT routes_FindRoute_without_edge_replay={s.noEdges}"
   IO.println s!"STAT routes_over_route_hints={s.hintRoutes}"
   IO.println s!"STAT cases_with_blinded_tail={s.blindedCases}"
+  IO.println s!"STAT request_route_glue_compared={s.sessGlue}"
+  IO.println s!"STAT route_cases_with_a_link_down={s.linkDownCases}"
+  IO.println s!"STAT routes_found_while_a_link_of_the_source_is_down={s.linkDownAvoided}"
   IO.println s!"STAT routes_over_blinded_tail={s.blindedRoutes}"
   IO.println s!"STAT blinded_max_htlc_not_enforced={s.blindedMax}"
   IO.println s!"STAT cases_with_invoice_route_hints={s.invHintCases}"
